@@ -27,6 +27,13 @@ Theorem C10_support : forall s idx rounds vals s', step s (EvAddSamples idx roun
     exists i sh, nth_error (shells s) i = Some sh /\ bnd sh = b.
 Proof. exact (batch_support contains in_cube lik blob n_batch). Qed.
 
+(* after exploration every likelihood call yields exactly one stored sample: the batch's n_batch evaluated points are
+   appended to the stored set, the counter advances by the same number, and the candidate store is untouched *)
+Theorem C10_stored : forall s idx rounds vals s', explored s = true -> step s (EvAddSamples idx rounds vals) = Some s' ->
+  length (all_pts s') = length (all_pts s) + n_batch /\ n_like s' = n_like s + n_batch /\
+  t_pts s' = t_pts s /\ t_from s' = t_from s.
+Proof. exact (batch_stored contains in_cube lik blob n_batch). Qed.
+
 (* one run() call: one batch per loop iteration *)
 Theorem C10_count : forall c first its ft fn s s' ret, run_call c first its ft fn s = Some (s', ret) ->
   n_like s' = n_like s + n_batch * length its.
@@ -65,6 +72,7 @@ End P.
 Print Assumptions C10_batch.
 Print Assumptions C10_counter.
 Print Assumptions C10_support.
+Print Assumptions C10_stored.
 Print Assumptions C10_count.
 Print Assumptions C10_budget.
 Print Assumptions C10_success.
